@@ -1015,12 +1015,79 @@ func (s *scen) senders(r *emit.Rand) (es, ms int) {
 	return s.owner, s.owner
 }
 
+// lockedOf: the observed locked amount of a denom (0 when the denom was never locked)
+func lockedOf(w *worldObs, d int) *big.Int {
+	for _, p := range w.Locked {
+		if p[0].Int64() == int64(d) {
+			return p[1]
+		}
+	}
+	return big.NewInt(0)
+}
+
+// multiSend: one message carrying two or three denoms (ascending, as sdk.Coins requires): each locked
+// denom at a boundary amount (spendable, spendable+1, whole balance), every other denom the account
+// holds -- deposits of never-locked denoms sorting before (uatom) or after (uusdc) it -- in full
+func (s *scen) multiSend(r *emit.Rand, w *worldObs) []coin {
+	var cs []coin
+	mode := r.Intn(4) // 0: all at spendable, 1: spendable+1 on the locked ones, 2: whole balances, 3: mixed
+	for _, d := range []int{dATOM, dFEE, dUSDC} {
+		bal := w.AB[d-1]
+		if bal.Sign() <= 0 {
+			continue
+		}
+		amt := new(big.Int).Set(bal)
+		if L := lockedOf(w, d); L.Sign() > 0 {
+			sp := new(big.Int).Sub(bal, L)
+			if d == dFEE {
+				rdl, _ := s.refreshed(w)
+				sp = s.spendableWith(w, rdl)
+			}
+			if sp.Sign() < 0 {
+				sp = big.NewInt(0)
+			}
+			m := mode
+			if m == 3 {
+				m = r.Intn(3)
+			}
+			switch m {
+			case 0:
+				amt = sp
+			case 1:
+				amt = new(big.Int).Add(sp, big.NewInt(1))
+			}
+		}
+		if amt.Sign() <= 0 {
+			amt = big.NewInt(1)
+		}
+		cs = append(cs, coin{d, amt})
+	}
+	if len(cs) == 3 && r.Chance(1, 3) { // two of the three
+		i := r.Intn(3)
+		cs = append(cs[:i:i], cs[i+1:]...)
+	}
+	return cs
+}
+
+func held(w *worldObs) int {
+	n := 0
+	for _, d := range []int{dATOM, dFEE, dUSDC} {
+		if w.AB[d-1].Sign() > 0 {
+			n++
+		}
+	}
+	return n
+}
+
 func (s *scen) sendCoins(r *emit.Rand, w *worldObs, fromProxy bool) []coin {
 	src := w.AB
 	feeRef := s.spendable(w)
 	if fromProxy {
 		src = w.PB
 		feeRef = src[dFEE-1]
+	}
+	if !fromProxy && w.Locked != nil && held(w) >= 2 && r.Chance(1, 3) {
+		return s.multiSend(r, w)
 	}
 	switch r.Intn(40) {
 	case 0: // empty
@@ -1116,8 +1183,11 @@ func (s *scen) randomStep(r *emit.Rand) error {
 		{18, ex(opDesc{Kind: "Send", ES: es, MS: ms, To: s.pickTo(r, w), Coins: s.sendCoins(r, w, false)})},
 		{6, func() error {
 			c := []coin{{dFEE, s.amountNear(r, big10(3+r.Intn(9)))}}
-			if r.Chance(1, 5) {
-				c = []coin{{dUSDC, big.NewInt(int64(1 + r.Intn(1000)))}}
+			if r.Chance(1, 3) { // other denoms, sorting before (uatom) and after (uusdc) urise
+				c = []coin{{[]int{dATOM, dUSDC}[r.Intn(2)], big.NewInt(int64(1 + r.Intn(1000)))}}
+				if r.Chance(1, 4) {
+					c = []coin{{dATOM, big.NewInt(int64(1 + r.Intn(1000)))}, {dUSDC, big.NewInt(int64(1 + r.Intn(1000)))}}
+				}
 			}
 			if r.Chance(1, 12) {
 				c = []coin{{dBOND, big.NewInt(5)}}
@@ -1557,6 +1627,12 @@ func Run(seed int64, n int, outDir string) error {
 			if r.Chance(1, 3) {
 				funds = append(funds, coin{dBOND, big.NewInt(100)})
 			}
+		case 3:
+			if r.Chance(1, 2) { // the locked denom sorts first, urise arrives later as a deposit
+				funds = []coin{{dATOM, big.NewInt(int64(1000 + r.Intn(1000000)))}}
+			} else {
+				funds = []coin{{dATOM, big.NewInt(int64(1000 + r.Intn(1000000)))}, {dFEE, amt}}
+			}
 		}
 		s := e.initCase(sd, start, end, startZero, endZero, funds, "gen")
 		if s == nil {
@@ -1774,6 +1850,62 @@ func (e *env) corpus() error {
 		if e.now().Year() > 2060 { // keep block time small: a fresh chain
 			if err := e.newApp(); err != nil {
 				return err
+			}
+		}
+	}
+
+	// (j) one message carrying several denoms: a locked denom at spendable / spendable+1 / whole
+	// balance together with the full deposit of never-locked denoms that sort before (uatom) and
+	// after (uusdc) it; fully locked and half-way; both kinds; locked urise and locked uatom
+	dep := func(sc *scen, cs []coin, tag string) {
+		e.pickFunder()
+		sc.doExec(opDesc{Kind: "Deposit", ES: -2, MS: -2, Coins: cs}, tag)
+	}
+	for _, sdv := range []bool{false, true} {
+		for _, v := range []struct {
+			tag      string
+			startOff time.Duration
+			funds    []coin
+			deps     [][]coin
+		}{
+			{"locked-urise+usdc", 200 * day, []coin{{dFEE, big.NewInt(1_000_000)}}, [][]coin{{{dUSDC, big.NewInt(500)}}}},
+			{"halfway-urise+usdc", -200 * day, []coin{{dFEE, big.NewInt(1_000_000)}}, [][]coin{{{dUSDC, big.NewInt(500)}}}},
+			{"halfway-urise+atom", -200 * day, []coin{{dFEE, big.NewInt(1_000_000)}}, [][]coin{{{dATOM, big.NewInt(500)}}}},
+			{"halfway-urise+atom+usdc", -200 * day, []coin{{dFEE, big.NewInt(1_000_000)}}, [][]coin{{{dATOM, big.NewInt(500)}}, {{dUSDC, big.NewInt(500)}}}},
+			{"halfway-atom+urise", -200 * day, []coin{{dATOM, big.NewInt(1_000_000)}}, [][]coin{{{dFEE, big.NewInt(500)}}}},
+			{"halfway-urise,usdc+atom", -200 * day, []coin{{dFEE, big.NewInt(1_000_000)}, {dUSDC, big.NewInt(1_000_000)}}, [][]coin{{{dATOM, big.NewInt(500)}}}},
+		} {
+			tag := fmt.Sprintf("corpus:j-%v-%s", sdv, v.tag)
+			sc := e.initCase(sdv, e.now().Add(v.startOff), e.now().Add(v.startOff+400*day), false, false, v.funds, tag)
+			if sc == nil {
+				return fmt.Errorf("%s: init failed", tag)
+			}
+			for _, c := range v.deps {
+				dep(sc, c, tag+":deposit")
+			}
+			es, ms = own(sc)
+			for mode, name := range []string{"spendable", "spendable+1", "whole-balance"} {
+				w := sc.observe(e.ctx())
+				var cs []coin
+				for _, d := range []int{dATOM, dFEE, dUSDC} {
+					bal := w.AB[d-1]
+					if bal.Sign() <= 0 {
+						continue
+					}
+					amt := new(big.Int).Set(bal)
+					if L := lockedOf(w, d); L.Sign() > 0 && mode < 2 {
+						amt = new(big.Int).Sub(bal, L)
+						if amt.Sign() < 0 {
+							amt = big.NewInt(0)
+						}
+						amt.Add(amt, big.NewInt(int64(mode)))
+					}
+					if amt.Sign() <= 0 {
+						amt = big.NewInt(1)
+					}
+					cs = append(cs, coin{d, amt})
+				}
+				sc.doExec(opDesc{Kind: "Send", ES: es, MS: ms, To: "TOut", Coins: cs}, tag+":send-all-denoms-"+name)
 			}
 		}
 	}
